@@ -364,7 +364,8 @@ def c18(run):
         amount = rnd.randint(1, min(3 * chunk, 192))
         peers = [{"script": rnd.choice(faults), "avail": 1 + rnd.randint(0, amount)} for _ in range(rnd.randint(0, 4))]
         peers.insert(rnd.randint(0, len(peers)), {"script": []})
-        cases.append({"from": 1, "amount": amount, "chunk": chunk, "mode": "honest", "peers": peers})
+        cases.append({"from": 1, "amount": amount, "chunk": chunk, "mode": "honest", "peers": peers,
+                      "soloSecond": rnd.random() < 0.5})
     for i, c in enumerate(cases):
         c["id"] = i
         c["from_tlc"] = False
